@@ -235,7 +235,7 @@ theorem genConstrainPointsToBounds_eq (o : Obj) (p : V2) :
     genConstrainPointsToBounds o p = ⟨constrainPt o.pix.h p.x, constrainPt o.pix.w p.y⟩ := by
   have hh : (0 : Rat) ≤ (o.pix.h : Rat) := Nat.cast_nonneg _
   have hw : (0 : Rat) ≤ (o.pix.w : Rat) := Nat.cast_nonneg _
-  simp only [genConstrainPointsToBounds, vwhere, vltZero, shapeOf, IVec.toV, constrainPt, V2.sub_def, V2.ofNat_def,
+  simp only [genConstrainPointsToBounds, Owned.vwhere, AsVec.vec, hsub_owned, id, vwhere, vltZero, shapeOf, IVec.toV, constrainPt, V2.sub_def, V2.ofNat_def,
     Int.cast_natCast, decide_eq_true_eq, Nat.cast_zero]
   ext <;> simp only <;> split_ifs <;> first | rfl | (exfalso; linarith)
 
